@@ -66,7 +66,7 @@ enum Op {
 fn op_name(op: &Op) -> &'static str {
     match op {
         Op::InsertVal { how, .. } => ["Table::insert", "Table::insert_formatted", "Table::entry.or_insert", "IndexMut assign"][*how as usize % 4],
-        Op::Remove { how, .. } => ["Table::remove", "Table::remove_entry"][*how as usize % 2],
+        Op::Remove { how, .. } => ["Table::remove", "Table::remove_entry", "Table::entry Occupied::remove", "TableLike::entry Occupied::remove"][*how as usize % 4],
         Op::InsertTable { .. } => "insert new table",
         Op::AotPush { .. } => "ArrayOfTables::push",
         Op::AotRemove { .. } => "ArrayOfTables::remove",
@@ -568,10 +568,24 @@ fn apply_real(doc: &mut DocumentMut, op: &Op) -> Result<(), String> {
         }
         Op::Remove { tp, key, how } => {
             let t = table_mut(root, tp).ok_or_else(|| miss("table"))?;
-            if how % 2 == 0 {
-                t.remove(key);
-            } else {
-                t.remove_entry(key);
+            match how % 4 {
+                0 => {
+                    t.remove(key);
+                }
+                1 => {
+                    t.remove_entry(key);
+                }
+                2 => {
+                    if let toml_edit::Entry::Occupied(o) = t.entry(key) {
+                        o.remove();
+                    }
+                }
+                _ => {
+                    let tl: &mut dyn toml_edit::TableLike = t;
+                    if let toml_edit::Entry::Occupied(o) = tl.entry(key) {
+                        o.remove();
+                    }
+                }
             }
         }
         Op::Retain { tp, drop } => {
@@ -652,7 +666,15 @@ fn apply_real(doc: &mut DocumentMut, op: &Op) -> Result<(), String> {
                     t.insert(k.as_str(), Value::from(*v));
                 }
                 InlOp::Remove(k) => {
-                    t.remove(k);
+                    // half of the removals go through the entry API of the TableLike view
+                    if k.bytes().map(|b| b as u32).sum::<u32>() % 2 == 0 {
+                        t.remove(k);
+                    } else {
+                        let tl: &mut dyn toml_edit::TableLike = t;
+                        if let toml_edit::Entry::Occupied(o) = tl.entry(k) {
+                            o.remove();
+                        }
+                    }
                 }
                 InlOp::GetOrInsert(k, v) => {
                     t.get_or_insert(k.as_str(), *v);
@@ -714,7 +736,7 @@ fn gen_op(rng: &mut Rng, model: &KTable, counter: &mut i64) -> Op {
                 };
                 return Op::InsertVal { tp, key: pick_key(rng), val, how: rng.below(4) as u8 };
             }
-            5 | 6 | 7 if !existing.is_empty() => return Op::Remove { tp, key: existing[rng.below(existing.len())].0.clone(), how: rng.below(2) as u8 },
+            5 | 6 | 7 if !existing.is_empty() => return Op::Remove { tp, key: existing[rng.below(existing.len())].0.clone(), how: rng.below(4) as u8 },
             8 => return Op::InsertTable { tp, key: pick_key(rng), inner: "v".into(), val: c },
             9 => {
                 let key = if !aots.is_empty() && rng.chance(2, 3) { aots[rng.below(aots.len())].0.clone() } else { pick_key(rng) };
